@@ -57,6 +57,38 @@ def handshake_timer_cases(res):
         if not ok:
             res.violations.append({"clause": "handshake-phase-timer", "signature": "C15:handshake", "case": {"stall_after_client_flights": info["stall_after_flights"]}, "trace": info})
 
+def silent_after_handshake_cases(res):
+    """PyOpenSSL backend, request phase: the peer completes the handshake, sends nothing / part of a line / part of an upload body
+    and goes silent - it never answers the server's close_notify either.  When the request timer fires the peer must get
+    '40 Request timeout' and the TCP connection must actually be closed, not wait for the peer."""
+    from nauyaca.server.protocol import GeminiServerProtocol
+    from nauyaca.protocol.response import GeminiResponse
+    class Up:
+        async def handle_upload(self, r): return GeminiResponse(20, "text/gemini", "stored")
+    async def one(payload):
+        pair = tlsmem.Pair(lambda: GeminiServerProtocol(lambda r: GeminiResponse(20, "text/plain", "x"), None, Up()))
+        pair.handshake()
+        if payload:
+            pair.client.sendall(payload); pair.to_server()
+        for _ in range(4): await asyncio.sleep(0)
+        ip = pair.server.inner_protocol
+        armed = ip is not None and ip.timeout_handle is not None and not ip.timeout_handle.cancelled()
+        if armed:
+            ip.timeout_handle.cancel(); ip._handle_timeout()          # the timer fires (the peer stays silent)
+        for _ in range(4): await asyncio.sleep(0)
+        got = pair.client_read_all()                                    # the peer only reads what was sent; it writes nothing back
+        closed = pair.tcp.closed
+        if hasattr(pair.server, "_cancel_handshake_timer"): pair.server._cancel_handshake_timer()
+        return armed, got, closed
+    async def go():
+        return [(p, await one(p)) for p in (b"", b"gemini://localhost/par", b"titan://localhost/f;size=10\r\nabc", b"caf\xc3")]
+    for payload, (armed, got, closed) in asyncio.run(go()):
+        res.evaluations += 1; res.nontriv(("silent-tls", payload)); res.count("silent-after-handshake")
+        if not armed or got != b"40 Request timeout\r\n" or not closed:
+            res.violations.append({"clause": "a peer silent after the TLS handshake is disconnected when the request timer fires (PyOpenSSL backend)",
+                                   "signature": "C15:silent-tls", "case": {"sent_before_going_silent": payload.decode("latin-1")},
+                                   "trace": {"timer_armed": armed, "peer_received": got.decode("latin-1"), "tcp_closed": closed}})
+
 def pump_segmentation_cases(res, rng, tier):
     """the same client ciphertext delivered to TLSServerProtocol in arbitrary pieces (including application data coalesced
     with the last handshake flight): the inner protocol must see the same request and answer identically"""
@@ -64,7 +96,8 @@ def pump_segmentation_cases(res, rng, tier):
     from nauyaca.protocol.response import GeminiResponse
     reqs = [b"gemini://localhost/a\r\n", b"gemini://localhost/" + b"p" * 900 + b"\r\nTRAILING", b"titan://localhost/f;size=5\r\nhello", b"titan://localhost/f;size=20000\r\n" + b"z" * 20000]
     n = 6 if tier == "quick" else 60
-    async def one(req, cuts, coalesce):
+    async def one(req, cuts, coalesce, records=None):
+        """records: the request written by the client as several TLS records (one sendall per part)"""
         calls = []
         class Up:
             async def handle_upload(self, r):
@@ -79,10 +112,12 @@ def pump_segmentation_cases(res, rng, tier):
                     pair.client.do_handshake(); break
                 except SSL.WantReadError:
                     pair.to_server(); pair.to_client()
-            pair.client.sendall(req)
+            for part in (records or [req]): pair.client.sendall(part)
             pair.to_server(cut=cuts)
         else:
-            pair.handshake(); pair.client.sendall(req); pair.to_server(cut=cuts)
+            pair.handshake()
+            for part in (records or [req]): pair.client.sendall(part)
+            pair.to_server(cut=cuts)
         for _ in range(6): await asyncio.sleep(0)
         got = pair.client_read_all()
         ip = pair.server.inner_protocol
@@ -97,6 +132,14 @@ def pump_segmentation_cases(res, rng, tier):
                 cuts = [rng.randint(1, 40) for _ in range(rng.randint(1, 30))] if rng.random() < 0.7 else [rng.randint(1, 5000) for _ in range(5)]
                 coalesce = rng.random() < 0.5
                 out.append((req, cuts, coalesce, base, await one(req, cuts, coalesce)))
+            # the request as SEVERAL records queued behind the client's last handshake flight and delivered in ONE read
+            # (and in one read after the handshake): records still waiting in the BIO must all be drained
+            crlf = req.index(b"\r\n")
+            for parts in ([req[:5], req[5:]], [req[:crlf + 2], req[crlf + 2:]] if len(req) > crlf + 2 else [req[:crlf], req[crlf:]],
+                          [req[:3], req[3:crlf + 1], req[crlf + 1:]]):
+                parts = [p_ for p_ in parts if p_]
+                for coalesce in (True, False):
+                    out.append((req, [], coalesce, base, await one(req, None, coalesce, records=parts)))
         return out
     for req, cuts, coalesce, base, got in asyncio.run(go()):
         res.evaluations += 1; res.nontriv(("pump", req[:20], tuple(cuts), coalesce)); res.count("pump-segmentation")
